@@ -232,13 +232,38 @@ def build(case):
     if fam == 'count':
         return cnfgen.CountingPrinciple(a[0], a[1], formula_class=fc)
     if fam == 'matching':
-        if case.get('nx'):
+        if case.get('nx') and case.get('nx') != 'digraph':
             import networkx
             G = networkx.Graph()
             for v in range(a[0], 0, -1):      # inserted in reverse order, labels 10*v
                 G.add_node(10 * v)
             for (u, v) in a[1]:
                 G.add_edge(10 * v, 10 * u)
+        elif case.get('nx') == 'digraph':
+            # the graph as a directed file (gml 'directed 1', dot 'digraph')
+            # delivers it: every edge an arc, in alternating directions; the
+            # simple graph it stands for has the same pairs
+            import networkx
+            G = networkx.DiGraph()
+            G.add_nodes_from(range(1, a[0] + 1))
+            for i, (u, v) in enumerate(a[1]):
+                lo, hi = min(u, v), max(u, v)
+                if i % 2 == 0:
+                    G.add_edge(hi, lo)
+                else:
+                    G.add_edge(lo, hi)
+        elif case.get('edited'):
+            # a graph object that was edited: every edge removed and put back
+            # with the endpoints named in the other order, both ways round
+            G = scope.mk_graph(a[0], a[1])
+            for i, (u, v) in enumerate(a[1]):
+                lo, hi = min(u, v), max(u, v)
+                if (i + case['edited']) % 2 == 0:
+                    G.remove_edge(hi, lo)
+                    G.add_edge(lo, hi)
+                else:
+                    G.remove_edge(lo, hi)
+                    G.add_edge(hi, lo)
         elif case.get('grown') is not None:
             # a graph object with a history: created with `grown` vertices,
             # all the others added by ONE update_vertex_number call
@@ -721,6 +746,9 @@ def cases(tier, seed):
                     cs.append({'fam': 'matching', 'args': [n, list(es)], 'cls': cls, 'nx': 'reverse'})
                 if n >= 2 and cls == 'CNF':
                     cs.append({'fam': 'matching', 'args': [n, list(es)], 'cls': cls, 'grown': len(es) % 2})
+                if 2 <= n <= 4 and es and cls == 'CNF':
+                    cs.append({'fam': 'matching', 'args': [n, list(es)], 'cls': cls, 'edited': 1 + len(es) % 2})
+                    cs.append({'fam': 'matching', 'args': [n, list(es)], 'cls': cls, 'nx': 'digraph'})
         for n in range(0, 5):
             for k in range(0, 4):
                 for c in range(0, 4):
